@@ -32,3 +32,18 @@ def region(name):
         return fn
 
     return deco
+
+
+HARNESS_CANARIES = {}
+
+
+def harness_canary(pid, name):
+    """a known-wrong behaviour injected IN MEMORY into the real code (monkeypatch, undone afterwards): the bounded harness
+    must report it.  Returns True when caught.  A canary that survives means the harness or its oracle is blind:
+    the check then exits 3 (engine unsound) instead of reporting the property as held."""
+
+    def deco(fn):
+        HARNESS_CANARIES[(pid, name)] = fn
+        return fn
+
+    return deco
